@@ -184,3 +184,42 @@ func VerifC09_Scopes() {
 	var q parser.Policy
 	vrt.Assert("C09.scope.text-parses", q.UnmarshalCedar(buf.Bytes()) == nil)
 }
+
+// Policy level, encoder side: the JSON of a policy is composed of the JSON of
+// its parts (inside the executor encoding/json.Marshal is a structural stub, so
+// this observes what cedar-go hands to the encoder): every clause appears with
+// exactly the encoding it has on its own, in clause order.
+func VerifC09_PolicyJSONComposition() {
+	bodies := []ast.Node{
+		ast.Principal().Equal(ast.Value(types.NewEntityUID("User", "alice"))),
+		ast.Resource().In(ast.Value(types.NewEntityUID("Folder", "secret"))),
+		ast.Context().Access("k").LessThan(ast.Long(3)),
+		ast.ExtensionCall("decimal", ast.String("1.0")).DecimalLessThan(ast.ExtensionCall("decimal", ast.String("2.0"))),
+		ast.Context().Has("x").And(ast.Not(ast.Context().Access("x").IsEmpty())),
+		ast.IfThenElse(ast.True(), ast.Long(1), ast.Long(2)).Equal(ast.Long(1)),
+	}
+	i, j := vrt.Choice("first", len(bodies)), vrt.Choice("second", len(bodies))
+	var k1, k2 ast.Condition = ast.ConditionWhen, ast.ConditionWhen
+	if vrt.Choice("first-unless", 2) == 1 {
+		k1 = ast.ConditionUnless
+	}
+	if vrt.Choice("second-unless", 2) == 1 {
+		k2 = ast.ConditionUnless
+	}
+	p := &Policy{Effect: ast.EffectPermit, Principal: ast.ScopeTypeAll{}, Action: ast.ScopeTypeAll{}, Resource: ast.ScopeTypeAll{},
+		Conditions: []ast.ConditionType{{Condition: k1, Body: bodies[i].AsIsNode()}, {Condition: k2, Body: bodies[j].AsIsNode()}}}
+	full, err := p.MarshalJSON()
+	vrt.Cover("C09.policyjson.checked")
+	vrt.Assert("C09.policyjson.encodes", err == nil)
+	single := func(k ast.Condition, n ast.Node) []byte {
+		q := &Policy{Effect: ast.EffectPermit, Principal: ast.ScopeTypeAll{}, Action: ast.ScopeTypeAll{}, Resource: ast.ScopeTypeAll{},
+			Conditions: []ast.ConditionType{{Condition: k, Body: n.AsIsNode()}}}
+		b, _ := q.MarshalJSON()
+		// the clause list of the one-clause policy: "conditions":[ ... ]
+		at := bytes.Index(b, []byte(`"conditions":[`))
+		return b[at+len(`"conditions":[`) : len(b)-2]
+	}
+	c1, c2 := single(k1, bodies[i]), single(k2, bodies[j])
+	want := append(append(append([]byte{}, c1...), ','), c2...)
+	vrt.Assert("C09.policyjson.clauses-compose", bytes.Contains(full, want))
+}
